@@ -29,7 +29,9 @@ let parse_case (line : string) : case =
     (split_on '/' head);
   (* strip the optional 8th field of every submission *)
   let faults = ref [] in
-  let toks = Stdlib.List.filter (fun t -> t <> "") (split_on ';' hist) in
+  (* X = restart of the process on the same database: nothing changes for the model (the store persists, the
+     channels are registered again) *)
+  let toks = Stdlib.List.filter (fun t -> t <> "" && t <> "X") (split_on ';' hist) in
   (* L<first>,<prev>,<count>,<bits> = a run of headers, see harness/zz_verif/c11.go *)
   let toks = Stdlib.List.concat_map (fun t ->
       if starts_with "L" t then
@@ -157,6 +159,7 @@ let spec input obs =
             if step.[0] = 'S' then begin
               match split_on '=' step with
               | [o; rs] ->
+                if rs = "NOROW" then raise (Bad (Printf.sprintf "NOTINTABLE step %d answered %s but no row with this hash is in the table" i o));
                 let r = (try parse_row rs with Bad d -> raise (Bad ("ROW step " ^ string_of_int i ^ " " ^ d))) in
                 if not (Notify.row_matches_src r sub) then raise (Bad (Printf.sprintf "ROWSRC step %d row %s" i rs));
                 if "S" ^ st_letter r.Store.st <> o then raise (Bad (Printf.sprintf "ROWSTATE step %d %s" i step));
@@ -195,6 +198,7 @@ let spec input obs =
           if d = "INGESTION" then "ingestion-blocked"
           else if d = "PANIC" then "panic"
           else if d = "CHANNELS" then "channel-count"
+          else if starts_with "NOTINTABLE" d then "reported-stored-but-not-in-table"
           else if starts_with "ROWSRC" d then "stored-row-differs-from-submission"
           else if starts_with "ROWSTATE" d then "reported-state-differs-from-row"
           else if starts_with "ROW" d then "stored-row-unreadable"
